@@ -77,11 +77,11 @@ theorem C11_lines (c id : Bytes) (k : Nat) (r c' : Bytes) (h : updateRegex c id 
         · exact hno (Or.inr hm)
       · exact splitNl_lines_noNl c l hl
 
-/-- **C11 (which line).** In a file in CRS layout — the first line mentioning `id:R` is line `n ≥ 1` —
+/-- **C11 (which line).** In a file in CRS layout — the first line that mentions `id:R` outside an `@rx` operand is line `n ≥ 1` —
     the operand line for chain offset 0 is line `n - 1`, the SecRule line of rule R. -/
 theorem C11_target_rule_line (id : Bytes) (ls : List Bytes) (n : Nat) (hn : n < ls.length) (hpos : 0 < n)
-    (hfirst : ∀ j, j < n → ∀ l, ls[j]? = some l → contains (b!"id:" ++ id) l = false)
-    (hid : ∀ l, ls[n]? = some l → contains (b!"id:" ++ id) l = true) (base : Nat) :
+    (hfirst : ∀ j, j < n → ∀ l, ls[j]? = some l → isIdLine id l = false)
+    (hid : ∀ l, ls[n]? = some l → isIdLine id l = true) (base : Nat) :
     targetIndex id 0 base ls = .ok (base + n - 1) := by
   induction ls generalizing n base with
   | nil => simp at hn
@@ -89,7 +89,7 @@ theorem C11_target_rule_line (id : Bytes) (ls : List Bytes) (n : Nat) (hn : n < 
     cases n with
     | zero => exact absurd hpos (by omega)
     | succ m =>
-      have h0 : contains (b!"id:" ++ id) l = false := hfirst 0 (by omega) l rfl
+      have h0 : isIdLine id l = false := hfirst 0 (by omega) l rfl
       simp only [targetIndex, h0, Bool.false_eq_true, if_false]
       cases m with
       | zero =>
@@ -97,7 +97,7 @@ theorem C11_target_rule_line (id : Bytes) (ls : List Bytes) (n : Nat) (hn : n < 
         cases ls with
         | nil => simp at hn
         | cons l1 ls1 =>
-          have h1 : contains (b!"id:" ++ id) l1 = true := hid l1 rfl
+          have h1 : isIdLine id l1 = true := hid l1 rfl
           rw [targetIndex, h1]
           simp
       | succ m' =>
